@@ -44,7 +44,7 @@ def gen_cases(rng, tier):
         if wide:
             data[rng.randrange(nv)] = rng.choice([5 * 10**9, 10**12, 3 * 10**8 + 1, 10**13])
         cases.append({'dims': dims, 'data': data, 'T': rng.choice([1.0, 77.0, 300.0, 650.0, 1000.0, 2000.0, rng.uniform(0.5, 2000)]),
-                      'thr': rng.choice([1e20, 1e7, 1.0, 0.2])})
+                      'thr': rng.choice([1e20, 1e7, 1.0, 0.2]), 'pre_call': rng.random() < 0.5})
     return cases
 
 
@@ -55,6 +55,9 @@ def impl(case):
     vol = Volume(data=np.array(case['data'], dtype=int).reshape(case['dims']), lattice=lat)
     with np.errstate(divide='ignore'):
         fe = vol.get_free_energy(case['T'])
+    if case.get('pre_call'):
+        # an earlier graph request on the same object with other settings (as optimal_path makes) must not influence this one
+        fe.free_energy_graph(max_energy_threshold=1e7)
     G = fe.free_energy_graph(max_energy_threshold=case['thr'], diagonal=False)
     nodes = set(G.nodes)
     idx = list(np.ndindex(*case['dims']))
@@ -162,7 +165,7 @@ def nontrivial(case, out):
 
 
 def classify(case, out):
-    return [f'thr={case["thr"]:g}', 'has-unvisited' if 0 in case['data'] else 'all-visited', 'wide-range' if max(case['data']) >= 10**8 else 'narrow-range']
+    return [f'thr={case["thr"]:g}', 'has-unvisited' if 0 in case['data'] else 'all-visited', 'wide-range' if max(case['data']) >= 10**8 else 'narrow-range', 'graph-after-other-graph-request' if case.get('pre_call') else 'first-graph-request']
 
 
 def sample(case, out):
